@@ -396,6 +396,23 @@ def c04_d(ctx):
               'client.remove_task(<id of the cancelled entry>)',
               'cancel_pending does not pass the cancelled entry\'s id to client.remove_task',
               fn=cp, node=rt[0] if rt else cp.node)
+    # every entry that leaves the map is released: the release is unconditional
+    pops = [s for (s, t, k) in ctx.stores(cp, PENDING) if k in ('call:pop', 'call:popitem',
+                                                               'call:clear')] + \
+           [s for (s, t, k) in ctx.stores(cp, PENDING + '[_]') if k == 'del']
+    for s in pops:
+        lo = enclosing_loop(s)
+        hdr = cfg_of(cp).by_stmt[id(lo)] if lo is not None else cfg_of(cp).entry
+        cfgc = cfg_of(cp)
+        sn = ctx.node(cp, s)
+        rtn = [ctx.node(cp, c) for c in rt]
+        # within one iteration: no path header -> pop that avoids every remove_task
+        reach = cfgc.reachable(hdr, avoiding=[n for n in rtn if n is not sn])
+        unconditional = bool(rt) and (id(sn) not in reach or any(n is sn for n in rtn))
+        ctx.check(unconditional, cp, 'release is unconditional',
+                  'every popped entry passes client.remove_task',
+                  'an entry can be taken out of the pending map without its task being removed '
+                  'from the client (remove_task is conditional)', fn=cp, node=s)
     # all pending entries are visited
     fors = [n for n in own_nodes(cp.node) if isinstance(n, ast.For)]
     ok = False
